@@ -84,6 +84,7 @@ func c05Scalars() []c05Val {
 		{"float32(0.5)", float32(0.5)}, {"float32(1e10)", float32(1e10)}, {"float32(NaN)", float32(math.NaN())}, {"float32(+Inf)", float32(math.Inf(1))}, {"float32(3)", float32(3)},
 		{"float64(0.5)", 0.5}, {"float64(1e10)", 1e10}, {"float64(1e40)", 1e40}, {"float64(NaN)", math.NaN()}, {"float64(+Inf)", math.Inf(1)}, {"float64(-Inf)", math.Inf(-1)}, {"float64(3)", 3.0}, {"float64(2^31)", 2147483648.0},
 		{"string()", ""}, {"string(12)", "12"}, {"string(1.5)", "1.5"}, {"string(abc)", "abc"}, {"string(true)", "true"}, {"string(RED)", "RED"}, {"string(PURPLE)", "PURPLE"},
+		{"string(NaN)", "NaN"}, {"string(Inf)", "Inf"}, {"string(-Infinity)", "-Infinity"}, {"string(1e39)", "1e39"}, {"string(1e400)", "1e400"}, {"string(99999999999)", "99999999999"},
 		{"string(rfc3339)", "2020-04-05T06:07:08Z"}, {"string(invalid-utf8)", "a\xffb"}, {"string(quote)", "q\"\\\n"},
 		{"bool(true)", true}, {"bool(false)", false},
 		{"(*int)(nil)", nilp}, {"*int(1)", &one}, {"struct", c05Struct{1}}, {"*struct", &c05Struct{2}}, {"map", map[string]interface{}{"a": 1}},
@@ -288,6 +289,22 @@ func shapeOK(t *world.T, d interface{}) string {
 func unrepresentable(leaf string, v interface{}) bool {
 	if v == nil || ggql.IsNil(v) {
 		return false // a typed nil is a null value
+	}
+	if sv, ok := v.(string); ok {
+		switch sv {
+		case "NaN", "Inf", "-Infinity", "1e400":
+			if leaf == "Int" || leaf == "Int64" || leaf == "Float" || leaf == "Float64" || leaf == "Boolean" || leaf == "E" || leaf == "Time" {
+				return true
+			}
+		case "1e39":
+			if leaf == "Int" || leaf == "Int64" || leaf == "Float" || leaf == "Boolean" || leaf == "E" || leaf == "Time" {
+				return true
+			}
+		case "99999999999":
+			if leaf == "Int" || leaf == "Boolean" || leaf == "E" || leaf == "Time" {
+				return true
+			}
+		}
 	}
 	isWrongKind := func() bool {
 		switch v.(type) {
